@@ -24,7 +24,7 @@ MAX_TIMEOUTS = 12
 
 def _budget(nlines, timeout):
     if _TIMEOUTS[0] + _SLOW[0] == 0: return min(timeout, 60 + 0.2 * nlines)      # generous: a loaded machine must not produce a first timeout
-    return min(timeout, 6 + 0.01 * nlines)
+    return min(timeout, 10 + 0.05 * nlines)
 
 def _run_file(exe, lines, timeout, exempt=None):
     timeout = _budget(len(lines), timeout)
